@@ -7,4 +7,4 @@ Set Extraction KeepSingleton.
 Extraction "model.ml" extraction_prelude
   run run_ev tmap_run proj
   tally_sb tally_sb_why ev_sb ev_sb_why no_overflow all_ops ops_since_clear kind_of
-  run_prof op_of_req prof_sb prof_sb_why.
+  run_prof run_prof_trace op_of_req prof_sb prof_sb_why release_sb release_sb_why.
